@@ -31,7 +31,22 @@ RULE = (
     "given directly, or made by a short circuit on 9-10 (thorough 11) qubits whose two-qubit gates span up to "
     "the whole register; Z-type and general operators that touch the qubits on both sides of the 8/16-bit "
     "boundaries of the basis index; measurement records of width 9-100 built from tuples); in a quarter of all "
-    "circuits the simulator is also started from an explicit asymmetric initial state. Non-trivial = the reference probability vector (or the multiset of measured "
+    "circuits the simulator is also started from an explicit asymmetric initial state. scales (widths 1-5: Z-type "
+    "operators whose coefficients are all tiny (1e-8 ... 1e-200), all huge (1e8 ... 1e100), ordinary with one or two "
+    "tiny / huge ones among them, or whole numbers up to 2^62, each spelled as float / int / numpy float / numpy "
+    "integer / complex with zero imaginary part, made in one step by PauliSum([...]); whole operator and term by "
+    "term, exact and measured in both regimes, tolerances relative to the size of the coefficients; in 40 % of the "
+    "superpositions one outcome has probability 1e-8 ... 1e-10; operator qubit indices and sample counts sometimes "
+    "numpy integers). record (ONE Measurements object - from run_and_measure, from tuples (also of numpy integers, "
+    "widths up to 65), from_counts, or empty and assigned - read through get_counts / get_distribution / "
+    "get_expectation_values with two operators, then 2-5 times modified through its public attribute bitstrings or "
+    "its methods (reassigned with the same number of shots: reversed / qubits permuted / complemented / shots of "
+    "another state / other multiplicities of the same outcomes; items and slices replaced in place; cleared and "
+    "refilled; extended; add_counts; shortened; widened; shuffled) or the operator object modified (a term's "
+    "coefficient reassigned, terms replaced, reordered) and read again, what a read returned being overwritten by "
+    "the caller in a third of the steps; or ONE Wavefunction object whose amplitudes are replaced by those of a "
+    "sibling circuit between reads of probabilities, distribution, expectation and samples of both regimes). "
+    "Non-trivial = the reference probability vector (or the multiset of measured "
     "tuples) is not invariant under bit reversal; distinct = distinct canonical circuit strings"
 )
 ASSUMPTIONS = [
@@ -48,6 +63,14 @@ ASSUMPTIONS = [
     "vector (rv/ref/statevec.py) instead of dense 2^n x 2^n matrices",
     "symbolic circuits: the library's exact expectation value of a wavefunction with unbound symbols raises a "
     "TypeError in this environment and is not requested; symbolic wavefunctions are judged after Wavefunction.bind",
+    "scales / record: expectation values are compared relative to the size of the coefficients (exact: 1e-12 x "
+    "sum |c_t| for the workload's own circuits, 1e-9 x sum |c_t| in the monitor; measured per term: 1e-12 x |c_t|); "
+    "observed rounding is below 1e-15 of that size",
+    "coefficients spelled as fractions.Fraction, sympy numbers or Python integers beyond 2^63 make scipy.sparse "
+    "raise on the unchanged tree (coefficient is annotated ``complex``) and are not generated; numpy integers "
+    "are generated only where the products of two coefficients fit the fixed width",
+    "operators with tiny coefficients are built by PauliSum([terms]): the library's own ``+`` simplifies terms "
+    "away whose coefficient is close to zero (operator algebra, not this property)",
     "controlled gates list their control qubits first (gate.controlled(k)(*controls, *targets)); "
     "XX/YY/ZZ(theta) = exp(-i theta/2 P(x)P)",
 ]
@@ -58,10 +81,10 @@ DECIDING = [
     "get_sparse_operator", "amplitudes", "exact-distribution", "exact-expectation",
     "exact-expectation-vs-own-distribution", "deterministic-samples", "marginals:few", "marginals:many",
     "measured-expectation:few", "measured-expectation:many", "count-strings", "support:few", "support:many",
-    "bound-amplitudes", "wide-shots",
+    "bound-amplitudes", "wide-shots", "scaled-expectation", "record-history",
 ]
 BRANCHES = ["sample_from_wavefunction:many-samples", "sample_from_wavefunction:few-samples"]
-BUDGET = {"quick": (4, 35, 120), "thorough": (16, 200, 100000)}
+BUDGET = {"quick": (4, 35, 150), "thorough": (16, 200, 100000)}
 CASE_TIMEOUT = {"quick": 20, "thorough": 60}
 
 P_MIN = 1e-12
@@ -77,7 +100,7 @@ def _apply(U, qubits, n, state):
 
 
 def classes(tier):
-    return ["classical", "product", "entangled", "two_outcome", "operators", "symbolic", "history", "wide"]
+    return ["classical", "product", "entangled", "two_outcome", "operators", "symbolic", "history", "wide", "scales", "record"]
 
 
 # ----------------------------------------------------------------------------- reference from a circuit object
@@ -420,12 +443,16 @@ def _post_exact_expect(mon, call):
     if any(q >= n or q < 0 for ops, _ in terms for q, _o in ops) or any(abs(c.imag) > 0 for _, c in terms) or len(terms) > 64:
         mon.out_of_domain(name)
         return
+    if not math.isfinite(sum(abs(c) for _, c in terms)):
+        mon.out_of_domain(name)
+        return
     if call.exc is not None:
         mon.violation("exact-expectation-raises", f"{op} on {circuit!r} raised {call.exc!r}")
         return
     exp = _pauli_expectation(ref, terms, n).real
     got = complex(call.result)
-    if abs(got - exp) > 1e-9 * max(1.0, sum(abs(c) for _, c in terms)):
+    # relative to the size of the coefficients: an operator of tiny coefficients is an operator like any other
+    if not abs(got - exp) <= 1e-9 * sum(abs(c) for _, c in terms):
         mon.violation("exact-expectation-disagrees-with-reference",
                       f"<{op}> on {circuit!r} = {got!r}, reference {exp!r}")
     else:
@@ -472,7 +499,7 @@ def _post_meas_expect(mon, call):
         mon.violation("measured-expectation-shape", f"{len(got)} values for {len(exp)} terms")
         return
     for i, (g, e) in enumerate(zip(got, exp)):
-        if abs(complex(g) - e) > 1e-12 * max(1.0, abs(e)):
+        if not abs(complex(g) - e) <= 1e-12 * abs(zt[i][1]):  # |average| <= 1: relative to the coefficient
             mon.violation("measured-expectation-disagrees-with-shots",
                           f"term {i} ({zt[i][1]} * Z on qubits {zt[i][0]}): {complex(g)!r}, average over the {len(shots)} tuples gives {e!r}")
             return
@@ -497,7 +524,12 @@ def _post_sparse(mon, call):
         return
     ref = sum(P.string_matrix(ops, c, n) for ops, c in terms)
     got = np.asarray(call.result.todense())
-    if got.shape != ref.shape or not L.close(got, ref, 1e-12):
+    size = sum(abs(c) for _, c in terms)
+    if not math.isfinite(size):
+        mon.out_of_domain(name)
+        return
+    # every entry is a signed sum of coefficients: tolerance relative to their total size
+    if got.shape != ref.shape or not np.all(np.abs(got - ref) <= 1e-12 * size):
         mon.violation("sparse-operator-disagrees-with-reference", f"{op} on {n} qubits")
     else:
         mon.ok(name)
@@ -1380,6 +1412,454 @@ def _wide_case(ctx):
         # (a record that is not deterministic is judged by the monitor of get_expectation_values against its tuples)
 
 
+# ----------------------------------------------------------------------------- coefficient scales and number spellings
+SCALE_KINDS = ["tiny", "tiny", "tiny-mixed", "tiny-mixed", "tiny-mixed", "huge", "huge-mixed", "integers"]
+SPELLINGS = ["float", "float", "float", "np.float64", "complex", "int", "np.int64"]
+
+
+def spell_number(rng, value, np_int_ok=True):
+    """(spelling, the same real number as float / numpy float / complex with zero imaginary part, or - when the
+    value is a whole number that the type holds - int / numpy integer)"""
+    kind = rng.choice(SPELLINGS)
+    whole = float(value).is_integer() and abs(value) < 2**62
+    if kind == "int" and whole:
+        return kind, int(value)
+    if kind == "np.int64" and whole and abs(value) < 2**15 and np_int_ok:
+        # fixed-width integers: only where the products of two coefficients (which the library forms for the
+        # covariances) fit the type the caller chose
+        return kind, (np.int32(int(value)) if rng.random() < 0.3 else np.int64(int(value)))
+    if kind == "np.float64":
+        return kind, np.float64(value)
+    if kind == "complex":
+        return kind, complex(value, 0.0)
+    return "float", float(value)
+
+
+def scaled_z_terms(rng, n, kind):
+    """[(qubits, coefficient)]: a Z-type operator whose coefficients are all tiny (down to 1e-200), all huge (up
+    to 1e100), ordinary with one or two tiny / huge ones among them, or whole numbers up to 2^62.  Returns the
+    terms and the positions of the terms that are small next to the others"""
+    base = z_terms(rng, n, k=rng.randint(1, 2))
+    special = []
+    if kind == "tiny":
+        e = rng.choice([8, 9, 9, 10, 12, 15, 30, 100, 200])
+        terms = [(qs, c * 10.0 ** -(e + (rng.randint(0, 2) if rng.random() < 0.3 else 0))) for qs, c in base]
+    elif kind == "huge":
+        e = rng.choice([8, 9, 12, 16, 30, 100])
+        terms = [(qs, c * 10.0 ** (e + (rng.randint(0, 2) if rng.random() < 0.3 else 0))) for qs, c in base]
+    elif kind == "tiny-mixed":
+        terms = list(base)
+        special = rng.sample(range(len(terms)), rng.randint(1, min(2, len(terms))))
+        for i in special:
+            terms[i] = (terms[i][0], rng.choice([-1, 1]) * rng.randint(1, 9) * 10.0 ** -rng.choice([8, 9, 9, 9, 12, 30]))
+    elif kind == "huge-mixed":
+        terms = list(base)
+        i = rng.randrange(len(terms))
+        terms[i] = (terms[i][0], terms[i][1] * 10.0 ** rng.choice([8, 9, 10]))
+        special = [j for j in range(len(terms)) if j != i]
+    elif kind == "integers":
+        terms = [(qs, float(rng.choice([-1, 1]) * rng.choice([1, 2, 3, 7, 2**31, 2**32 + 1, 2**53 + 2, 2**60, 2**62 - 2**9])))
+                 for qs, _c in base]
+    else:
+        raise ValueError(kind)
+    return terms, special
+
+
+def _operator_from(terms, np_indices=False, as_sum=True):
+    """PauliSum made from the list of terms in ONE step (the library's ``+`` merges and simplifies)"""
+    from orquestra.quantum.operators import PauliSum, PauliTerm
+
+    made = []
+    for qs, c in terms:
+        made.append(PauliTerm({(np.int64(q) if np_indices else q): "Z" for q in qs}, c) if qs else PauliTerm("I0", c))
+    return PauliSum(made) if as_sum or len(made) != 1 else made[0]
+
+
+def _scales_case(ctx):
+    from orquestra.quantum.operators import get_expectation_value
+    from orquestra.quantum.runners import SymbolicSimulator
+
+    rng = ctx.rng
+    n = rng.choice([1, 2, 2, 3, 3, 3, 4, 4, 5])
+    maker = rng.choice(["classical", "classical", "two_outcome", "product", "product", "entangled"])
+    classical = None
+    if maker == "classical":
+        spec = classical_spec(rng, n)
+        classical = G.classical_run(spec, n)
+    elif maker == "two_outcome":
+        spec = two_outcome_spec(rng, n)
+    elif maker == "product":
+        spec = product_spec(rng, n)
+    else:
+        spec = entangled_spec(rng, n, rich=rng.random() < 0.3)
+    tiny_amplitude = maker != "classical" and rng.random() < 0.4
+    if tiny_amplitude:  # an outcome of probability 1e-8 ... 1e-10 is an outcome
+        spec = list(spec)
+        spec.insert(rng.randint(0, len(spec)), ("RY", rng.choice([-1, 1]) * rng.choice([2e-4, 6e-5, 2e-5]), (rng.randrange(n),)))
+    kind = rng.choice(SCALE_KINDS)
+    terms, special = scaled_z_terms(rng, n, kind)
+    np_int_ok = all(abs(c) < 2**15 for _qs, c in terms)
+    spelled = [(qs,) + spell_number(rng, c, np_int_ok) for qs, c in terms]
+    np_indices = rng.random() < 0.25
+    np_samples = rng.random() < 0.25
+    few, many = _sample_regimes(ctx, n)
+    seed = rng.randrange(2**31)
+    psi = run_spec(spec, n)
+    p = _probs(psi)
+    ctx.describe(f"scales/{kind} n={n} [{spec_str(spec)}] op={[(qs, sp, repr(c)) for qs, sp, c in spelled]} "
+                 f"np_indices={np_indices} np_samples={np_samples} few={few} many={many} seed={seed}", _nontrivial(p, n))
+    mon = ctx.mon
+    mon.note(f"width:{n}")
+    mon.note("scales:" + kind)
+    for _qs, sp, _c in spelled:
+        mon.note("coefficient-spelled-as:" + sp)
+    if tiny_amplitude:
+        mon.note("scales:tiny-amplitude")
+
+    circuit = build_circuit(spec, n)
+    sim = SymbolicSimulator(seed=seed)
+    op = _operator_from([(qs, c) for qs, _sp, c in spelled], np_indices)
+    terms = [(tuple(int(q) for q, _o in ops), c.real) for ops, c in P.terms_of(op)]
+    size = sum(abs(c) for _, c in terms)
+
+    wf = sim.get_wavefunction(circuit)
+    got = _numeric_amplitudes(wf)
+    ok = got is not None and len(got) == len(psi) and L.close(got, psi, 1e-9)
+    ctx.check("amplitudes", ok, lambda: "amplitudes differ from the reference"
+              + (_reversal_hint(got, psi, n) if got is not None and len(got) == len(psi) else ""))
+    if not ok:
+        return
+    dd = sim.get_measurement_outcome_distribution(circuit).distribution_dict
+    bad = _check_distribution_dict(dd, p, n)
+    ctx.check("exact-distribution", bad is None, lambda: f"exact distribution: {bad}")
+
+    # the whole operator: tolerance relative to the size of its coefficients (rounding is ~1e-16 of it)
+    e_ref = G.z_expectation(p, terms, n)
+    e_lib = sim.get_exact_expectation_values(circuit, op)
+    ctx.check("exact-expectation", abs(e_lib - e_ref) <= 1e-12 * size,
+              lambda: f"exact <{op}> = {e_lib!r}, reference sum_b p(b) eig(b) = {e_ref!r} (coefficients total {size!r})")
+    e_dir = complex(get_expectation_value(op, wf))
+    ctx.check("exact-expectation", abs(e_dir - e_ref) <= 1e-12 * size,
+              lambda: f"get_expectation_value: <{op}> = {e_dir!r}, reference {e_ref!r} (coefficients total {size!r})")
+    if bad is None:
+        e_own = 0.0
+        for key, v in dd.items():
+            e_own += float(v) * sum(c * G.z_parity(qs, key) for qs, c in terms)
+        ctx.check("exact-expectation-vs-own-distribution", abs(e_lib - e_own) <= 1e-12 * size,
+                  lambda: f"exact <{op}> = {e_lib!r} but the library's own exact distribution averages to {e_own!r}")
+    # term by term (the small ones first): each term is an operator of its own
+    order = list(special) + [i for i in rng.sample(range(len(terms)), len(terms)) if i not in special]
+    for i in order[:3]:
+        qs, c = terms[i]
+        if not qs:
+            continue
+        single = _operator_from([(qs, op.terms[i].coefficient)], np_indices, as_sum=rng.random() < 0.5)
+        e1 = sim.get_exact_expectation_values(circuit, single)
+        r1 = G.z_expectation(p, [(qs, c)], n)
+        ctx.check("scaled-expectation", abs(e1 - r1) <= 1e-12 * abs(c),
+                  lambda: f"exact <{single}> = {e1!r}, reference {r1!r}")
+
+    # measured, both regimes: judged by the monitor against the very tuples; exactly known on basis states
+    for regime, k in (("few", few), ("many", many)):
+        m = sim.run_and_measure(circuit, np.int64(k) if np_samples else k)
+        shots = [tuple(t) for t in m.bitstrings]
+        bad_s = _judge_samples(shots, p, n, f"run_and_measure(.., {k}) [{regime}]")
+        ctx.check("support:" + regime, bad_s is None and len(shots) == k, lambda: bad_s[1] if bad_s else f"{len(shots)} samples for {k}")
+        if bad_s is not None:
+            continue
+        ev = m.get_expectation_values(op)
+        vals = np.asarray(ev.values, dtype=complex).flatten()
+        exp_vals = _shot_average(terms, shots)
+        ctx.check("scaled-expectation", len(vals) == len(exp_vals) and
+                  all(abs(v - e) <= 1e-12 * abs(c) for v, e, (_qs, c) in zip(vals, exp_vals, terms)),
+                  lambda: f"[{regime}] measured {list(vals)} for terms {terms}; average over the tuples gives {exp_vals}")
+        if classical is not None:
+            ctx.check("deterministic-samples", all(t == classical for t in shots),
+                      lambda: f"[{regime}-samples regime] expected every sample to be {classical}, got {sorted(set(shots))[:4]}")
+            total = complex(sum(vals))
+            ctx.check("measured-expectation:" + regime, abs(total - e_ref) <= 1e-12 * size,
+                      lambda: f"[{regime}] measured total {total!r} on a basis state, exact {e_ref!r}")
+
+
+# ----------------------------------------------------------------------------- histories on ONE record / state / operator
+RECORD_STARTS = ["simulated", "simulated", "given", "given", "from_counts", "assigned"]
+RECORD_MODS = ["reverse", "reverse", "permute", "complement", "other", "other", "item", "item", "slice", "multiplicity",
+               "clear-refill", "each-in-place", "extend", "add_counts", "shrink", "widen", "shuffle", "none",
+               "op-coefficient", "op-coefficient", "op-terms", "op-reorder"]
+RECORD_READS = ["counts", "dist", "expect", "expect", "expect-other"]
+
+
+def _pool(rng, w, k):
+    pool = []
+    while len(pool) < k:
+        b = asymmetric_bits(rng, w) if w <= 8 else wide_bits(rng, w)
+        if b not in pool:
+            pool.append(b)
+        elif w == 1 or (w == 2 and len(pool) >= 2):
+            break
+    return pool
+
+
+def _shots_from(rng, w, N, k=None):
+    pool = _pool(rng, w, k or rng.randint(1, 3))
+    shots = [rng.choice(pool) for _ in range(N)]
+    shots[0] = pool[0]
+    return shots
+
+
+def _modify_record(r, kind, m, op, w):
+    """one modification of the record ``m`` (through its public attribute ``bitstrings`` / its methods) or of the
+    operator ``op`` (public attributes ``terms`` / ``coefficient``); returns a short note of what was done"""
+    from orquestra.quantum.operators import PauliTerm
+
+    N = len(m.bitstrings)
+    if kind == "reverse":
+        m.bitstrings = [tuple(t[::-1]) for t in m.bitstrings]
+    elif kind == "permute":
+        perm = list(range(w))
+        while w > 1 and perm == list(range(w)):
+            r.shuffle(perm)
+        m.bitstrings = [tuple(t[perm[q]] for q in range(w)) for t in m.bitstrings]
+    elif kind == "complement":
+        m.bitstrings = [tuple(1 - b for b in t) for t in m.bitstrings]
+    elif kind == "other":
+        m.bitstrings = _shots_from(r, w, N)
+    elif kind == "item":
+        for _ in range(r.choice([1, 1, 2, N])):
+            m.bitstrings[r.randrange(N)] = _pool(r, w, 1)[0]
+    elif kind == "slice":
+        a = r.randrange(N)
+        b = r.randint(a + 1, N)
+        m.bitstrings[a:b] = [_pool(r, w, 1)[0]] * (b - a)
+    elif kind == "multiplicity":
+        seen = list(dict.fromkeys(map(tuple, m.bitstrings)))
+        if len(seen) < 2 or N < 3:
+            m.bitstrings = _shots_from(r, w, N, 2)
+        else:
+            major = r.choice(seen)
+            m.bitstrings = list(seen) + [major] * (N - len(seen))
+    elif kind == "clear-refill":
+        new = _shots_from(r, w, N)
+        lst = m.bitstrings
+        lst.clear()
+        lst.extend(new)
+    elif kind == "each-in-place":
+        lst = m.bitstrings
+        for i in range(N):
+            lst[i] = tuple(lst[i][::-1])
+    elif kind == "extend":
+        m.bitstrings += [_pool(r, w, 1)[0]] * r.randint(1, 5)
+    elif kind == "add_counts":
+        m.add_counts({"".join(map(str, b)): r.randint(1, 4) for b in _pool(r, w, r.randint(1, 2))})
+    elif kind == "shrink":
+        if N > 2:
+            del m.bitstrings[-r.randint(1, N - 1):]
+    elif kind == "widen":
+        extra = r.randint(0, 1)
+        m.bitstrings = [tuple(t) + (extra ^ (i % 2 if N > 1 else 0),) for i, t in enumerate(m.bitstrings)]
+    elif kind == "shuffle":
+        r.shuffle(m.bitstrings)
+    elif kind == "none":
+        pass
+    elif kind == "op-coefficient":
+        t = r.choice(list(op.terms))
+        c = t.coefficient
+        t.coefficient = r.choice([-c, c * (1 + 1e-6), c + 1.0, 2 * c, c * 1e-9, 0.25])
+    elif kind == "op-terms":
+        # same supports in the same order, other coefficients, new term objects
+        op.terms = [PauliTerm({q: "Z" for q in t.qubits}, _r(r.uniform(-3, 3)) or 1.5)
+                    if t.qubits else PauliTerm("I0", _r(r.uniform(-3, 3)) or 1.5) for t in op.terms]
+    elif kind == "op-reorder":
+        op.terms = list(reversed(list(op.terms)))
+    else:
+        raise ValueError(kind)
+
+
+def _read_record(ctx, read, m, op, op2, step):
+    """one read of the record, compared with the tuples it holds NOW"""
+    shots = [tuple(int(b) for b in t) for t in m.bitstrings]
+    N = len(shots)
+    where = f"step {step}"
+    if read == "counts":
+        got = m.get_counts()
+        exp = dict(Counter("".join(map(str, t)) for t in shots))
+        ctx.check("record-history", dict(got) == exp, lambda: f"{where}: count strings {dict(got)} but the tuples give {exp}")
+        return got
+    if read == "dist":
+        d = m.get_distribution().distribution_dict
+        exp = {t: k / N for t, k in Counter(shots).items()}
+        ok = set(map(tuple, d)) == set(exp) and all(abs(float(v) - exp[tuple(t)]) <= 1e-12 for t, v in d.items())
+        ctx.check("record-history", ok, lambda: f"{where}: distribution {dict(d)} but the tuples give {exp}")
+        return d
+    o = op if read == "expect" else op2
+    ev = m.get_expectation_values(o)
+    terms = [(tuple(int(q) for q, _o in ops), c.real) for ops, c in P.terms_of(o)]
+    exp = _shot_average(terms, shots)
+    vals = np.asarray(ev.values, dtype=complex).flatten()
+    ctx.check("record-history", len(vals) == len(exp) and all(abs(v - e) <= 1e-12 * abs(c) for v, e, (_q, c) in zip(vals, exp, terms)),
+              lambda: f"{where}: measured {list(vals)} for terms {terms}; the average over the tuples gives {exp}")
+    return ev.values
+
+
+def _scribble(r, obj):
+    """the caller modifies what a read returned (its own copy, as far as the caller can know)"""
+    try:
+        if isinstance(obj, dict):
+            for k in list(obj)[: r.randint(1, 2)]:
+                obj[k] = obj[k] * 3 + 1
+            if r.random() < 0.3:
+                obj.clear()
+        elif isinstance(obj, np.ndarray) and obj.flags.writeable:
+            obj[...] = 0
+    except Exception:
+        pass
+
+
+def _record_shots_case(ctx):
+    import random as _random
+
+    from orquestra.quantum.measurements import Measurements
+    from orquestra.quantum.runners import SymbolicSimulator
+
+    rng = ctx.rng
+    start = rng.choice(RECORD_STARTS)
+    w = rng.choice([2, 3, 3, 4, 4, 5]) if start == "simulated" else rng.choice([2, 3, 3, 4, 5, 6, 9, 17, 33, 65])
+    seed = rng.randrange(2**31)
+    plan = [(rng.choice(RECORD_MODS), rng.randrange(2**31), rng.sample(RECORD_READS, rng.randint(1, 3)), rng.random() < 0.3)
+            for _ in range(rng.randint(2, 5))]
+    op_terms = z_terms(rng, w, k=2) if w <= 8 else wide_z_terms(rng, w)
+    op2_terms = [(qs, _r(rng.uniform(-3, 3)) or 0.5) for qs, _c in op_terms]  # same supports, other coefficients
+    spec = None
+    if start == "simulated":
+        spec = classical_spec(rng, w) if rng.random() < 0.5 else two_outcome_spec(rng, w)
+        N = rng.choice([rng.randint(1, 2**w), 2**w + rng.randint(1, 20)])
+        head = f"[{spec_str(spec)}] n_samples={N}"
+        nontrivial = _nontrivial(_probs(run_spec(spec, w)), w)
+    else:
+        N = rng.randint(2, 24)
+        first = _shots_from(rng, w, N)
+        np_bits = rng.choice([None, None, None, np.int8, np.int64]) if start == "given" else None  # entries as numpy integers
+        head = f"tuples={[''.join(map(str, t)) for t in first]}" + (f" entries={np_bits.__name__}" if np_bits else "")
+        nontrivial = Counter(first) != Counter(t[::-1] for t in first)
+    ctx.describe(f"record/{start} width={w} {head} seed={seed} op={op_terms} op2={op2_terms} "
+                 f"plan={[(k, sd, rd, sc) for k, sd, rd, sc in plan]}", nontrivial)
+    mon = ctx.mon
+    sim = circuit = psi = None
+    if start == "simulated":
+        sim = SymbolicSimulator(seed=seed)
+        circuit = build_circuit(spec, w)
+        psi = run_spec(spec, w)
+        m = sim.run_and_measure(circuit, N)
+        bad = _judge_samples(m.bitstrings, _probs(psi), w, f"run_and_measure(.., {N})")
+        ctx.check("support:" + ("few" if N <= 2**w else "many"), bad is None, lambda: bad[1])
+    elif start == "given":
+        m = Measurements([tuple(np_bits(b) for b in t) for t in first] if np_bits else list(first))
+    elif start == "from_counts":
+        counts = dict(Counter("".join(map(str, t)) for t in first))
+        m = Measurements.from_counts(counts)
+        # position q of a count string = qubit q of the tuples it stands for
+        ctx.check("record-history", Counter(map(tuple, m.bitstrings)) == Counter(first),
+                  lambda: f"from_counts({counts}) holds the tuples {Counter(map(tuple, m.bitstrings))}")
+    else:
+        m = Measurements()
+        m.bitstrings = list(first)
+    op = _operator_from(op_terms)
+    op2 = _operator_from(op2_terms)
+    for read in rng.sample(RECORD_READS, len(RECORD_READS)):  # everything is read once before anything changes
+        _read_record(ctx, read, m, op, op2, 0)
+    for step, (kind, sub, reads, scribble) in enumerate(plan, 1):
+        r = _random.Random(sub)
+        width_now = len(m.bitstrings[0]) if len(m.bitstrings) else w
+        before = Counter(map(tuple, m.bitstrings))
+        _modify_record(r, kind, m, op, width_now)
+        mon.note("record:" + kind)
+        if kind == "add_counts":  # the tuples added for a count string carry its characters in the same positions
+            added = Counter(map(tuple, m.bitstrings)) - before
+            ctx.check("record-history", all(_is_tuple_of_bits(t, width_now) for t in added) and sum(added.values()) > 0,
+                      lambda: f"step {step}: add_counts added the tuples {dict(added)}")
+        if sim is not None and kind.startswith("op-"):
+            # the operator object the simulator saw before, now with other content
+            terms = [(tuple(int(q) for q, _o in ops), c.real) for ops, c in P.terms_of(op)]
+            e_ref = G.z_expectation(_probs(psi), terms, w)
+            e_lib = sim.get_exact_expectation_values(circuit, op)
+            ctx.check("record-history", abs(e_lib - e_ref) <= 1e-12 * sum(abs(c) for _, c in terms),
+                      lambda: f"step {step}: exact <{op}> = {e_lib!r}, reference {e_ref!r}")
+        for read in reads:
+            out = _read_record(ctx, read, m, op, op2, step)
+            if scribble:
+                _scribble(r, out)
+        if sim is not None and step == 1:
+            sim.get_exact_expectation_values(circuit, op)
+
+
+def _record_state_case(ctx):
+    """ONE Wavefunction object whose amplitudes are replaced (``wf[:] = ...``) between the reads"""
+    import random as _random
+
+    from orquestra.quantum.distributions import create_bitstring_distribution_from_probability_distribution
+    from orquestra.quantum.operators import get_expectation_value
+    from orquestra.quantum.wavefunction import Wavefunction, sample_from_wavefunction
+
+    rng = ctx.rng
+    n = rng.choice([2, 3, 3, 4, 4, 5, 9])
+    specs = []
+    base = wide_circuit_spec(rng, n) if n > 8 else rng.choice([classical_spec, two_outcome_spec, product_spec, entangled_spec])(rng, n)
+    specs.append(base)
+    for _ in range(rng.randint(1, 2)):
+        kind = rng.choice(["mirror", "relabel", "flip", "param", "drop", "append", "fresh"])
+        new = sibling(rng, base, n, kind, n) if kind != "fresh" else None
+        if new is None:
+            new = (classical_spec(rng, n) if n <= 8 else wide_circuit_spec(rng, n), n)
+        specs.append(new[0])
+    if rng.random() < 0.5:
+        specs.append(specs[0])
+    terms0 = z_terms(rng, n, k=2) if n <= 8 else wide_z_terms(rng, n)
+    few, many = _sample_regimes(ctx, n)
+    plan = [(rng.randrange(2**31), rng.random() < 0.3) for _ in specs]
+    psis = [run_spec(sp, n) for sp in specs]
+    ctx.describe(f"record/state n={n} states={[spec_str(sp) for sp in specs]} op={terms0} few={few} many={many} plan={plan}",
+                 any(_nontrivial(_probs(x), n) for x in psis))
+    ctx.mon.note(f"width:{n}")
+    op = _operator_from(terms0)
+    wf = None
+    for step, (psi, (sub, change_op)) in enumerate(zip(psis, plan)):
+        r = _random.Random(sub)
+        p = _probs(psi)
+        if wf is None:
+            wf = Wavefunction(psi.copy())
+        else:
+            wf[:] = psi.copy()
+            ctx.mon.note("record:amplitudes-replaced")
+        if change_op and step:
+            t = r.choice(list(op.terms))
+            t.coefficient = r.choice([-t.coefficient, t.coefficient + 1.0, 2 * t.coefficient])
+            ctx.mon.note("record:op-coefficient")
+        terms = [(tuple(int(q) for q, _o in ops), c.real) for ops, c in P.terms_of(op)]
+        got_p = np.asarray(wf.get_probabilities(), dtype=float).flatten()
+        ctx.check("record-history", len(got_p) == len(p) and np.allclose(got_p, p, atol=1e-12),
+                  lambda: f"step {step}: probabilities of the wavefunction differ from |amplitudes|^2" + _reversal_hint(got_p, p, n))
+        if n <= 8 or r.random() < 0.5:
+            dd = create_bitstring_distribution_from_probability_distribution(wf.get_probabilities()).distribution_dict
+            bad = _check_distribution_dict(dd, p, n)
+            ctx.check("record-history", bad is None, lambda: f"step {step}: exact distribution: {bad}")
+        e_ref = S.z_expectation(p, terms, n)
+        e_lib = complex(get_expectation_value(op, wf))
+        ctx.check("record-history", abs(e_lib - e_ref) <= 1e-9 * sum(abs(c) for _, c in terms),
+                  lambda: f"step {step}: exact <{op}> = {e_lib!r}, reference {e_ref!r}")
+        for regime, k in (("few", few), ("many", many)):
+            if n > 8 and regime == "many" and step:
+                continue
+            shots = sample_from_wavefunction(wf, k, r.randrange(2**31))
+            bad_d = _judge_samples(shots, p, n, f"step {step}: sample_from_wavefunction(.., {k}) [{regime}]")
+            ctx.check("support:" + regime, bad_d is None and len(shots) == k, lambda: bad_d[1] if bad_d else f"{len(shots)} samples for {k}")
+
+
+def _record_case(ctx):
+    if ctx.rng.random() < 0.7:
+        return _record_shots_case(ctx)
+    return _record_state_case(ctx)
+
+
 def run_case(ctx):
     rng = ctx.rng
     cls = ctx.cls
@@ -1389,6 +1869,10 @@ def run_case(ctx):
         return _history_case(ctx)
     if cls == "wide":
         return _wide_case(ctx)
+    if cls == "scales":
+        return _scales_case(ctx)
+    if cls == "record":
+        return _record_case(ctx)
     n = rand_width(ctx)
     if cls == "classical":
         spec = classical_spec(rng, n)
